@@ -216,6 +216,21 @@ def compare(sc, base_game, base_runs, game2, perm, ren, acc, exact=True, where="
 def presentations(game, mode):
     """(perm, orders, renaming) triples; mode 'product' = full product, 'sum' = sum of generators"""
     n = len(game["players"])
+    if n > 20:
+        # large games: reversal, two rotations and an interleaving of the non-initial states; all lists reversed; one renaming
+        degs = [len(r) for r in game["transition_list"]]
+        ident_o = tuple(tuple(range(d)) for d in degs)
+        rev_o = tuple(tuple(reversed(range(d))) for d in degs)
+        rest = list(range(1, n))
+        inter = rest[1::2] + rest[0::2]
+        pinter = [0] * n
+        for pos, s_ in enumerate(inter):
+            pinter[s_] = pos + 1
+        yield tuple([0] + list(range(n - 1, 0, -1))), ident_o, None
+        yield tuple([0] + [1 + ((s_ - 1 + 1) % (n - 1)) for s_ in range(1, n)]), rev_o, None
+        yield tuple([0] + [1 + ((s_ - 1 + (n - 1) // 2) % (n - 1)) for s_ in range(1, n)]), ident_o, RENAMINGS[3]
+        yield tuple(pinter), rev_o, RENAMINGS[2]
+        return
     if mode.endswith("-gens") or n > 6:
         # generators of the permutation group instead of the whole group: adjacent transpositions, rotations, reversal
         perms = set()
@@ -510,6 +525,8 @@ def plan(ctx):
     fam("U-C", "sum-gens", stride=1 if ctx.thorough else 24, offset=ctx.seed)     # chains: values settle late along the numbering
     fam("U-P2", "sum-gens", stride=1 if ctx.thorough else 36, offset=ctx.seed)    # two-level choices
     fam("U-G", "sum-gens", stride=6 if ctx.thorough else 48, offset=ctx.seed)    # corridors of 11-16 states
+    fam("U-A", "sum", stride=1 if ctx.thorough else 3, offset=ctx.seed, all_sizes=bool(ctx.thorough))    # large acyclic games (4 presentations each)
+    fam("U-K", "sum-gens", stride=1 if ctx.thorough else 4, offset=ctx.seed)
     fam("U-N", "sum")              # near chains: order of three almost-equal successors must not matter
     if ctx.thorough:
         fam("U-R", "sum-gens")     # reward ties through different float sums
